@@ -75,6 +75,9 @@ class Taint:
                 self.domain_names.add(p)
         # parameters that callers fill with streams (e.g. the dict of generators handed to generate_combinations)
         self.domain_names |= stream_params(db, model).get(fn.qualname, set())
+        # the lazy combinators of utils take (dicts of) streams by contract, whether or not the package calls them today
+        if fn.module == "utils" and fn.name in UTILS_FUNCS and fn.parent is None:
+            self.domain_names |= set(fn.params)
         # free variables of a nested function: what is tainted in the enclosing function is tainted here
         if fn.parent is not None:
             own = set(fn.params) | set(local_defs(fn))
@@ -164,6 +167,9 @@ def eager_uses(db: ProgramDB, model: SiteModel, fn: FuncInfo) -> List[Tuple[ast.
             else:
                 for a in n.args:
                     if isinstance(a, ast.Starred):
+                        if isinstance(a.value, ast.Call) and isinstance(a.value.func, ast.Attribute) and a.value.func.attr in ("values", "items", "keys") \
+                                and not a.value.args:
+                            continue      # unpacks a dict view (a container OF streams), which pulls nothing from the streams
                         w = t.is_stream(a.value)
                         if w and last not in ("generate_combinations",):
                             bad.append((n, f"`{unparse(n)[:60]}` unpacks {w} (drains it)"))
@@ -365,17 +371,29 @@ def rule_dup_stable(db: ProgramDB) -> List[Instance]:
                      and x.iter.attr == "iterable"]:
             n += 1
             tn = {x.id for x in ast.walk(loop.target) if isinstance(x, ast.Name)}
+            # the memo: the field of self the loop stores pulled elements into (self.<memo>[…] = v)
+            memos = {unparse(t.value) for x in ast.walk(loop) if isinstance(x, ast.Assign) for t in x.targets
+                     if isinstance(t, ast.Subscript) and isinstance(t.value, ast.Attribute) and isinstance(t.value.value, ast.Name)
+                     and t.value.value.id == "self"}
+
+            def against_live_memo(x: ast.Compare) -> bool:
+                c = x.comparators[0]
+                if isinstance(c, ast.Call) and isinstance(c.func, ast.Attribute) and c.func.attr == "keys" and not c.args:
+                    c = c.func.value
+                # the live memo, not a snapshot taken before the loop: an element listed twice is stored by the first pull and
+                # has to be recognised at the second
+                return unparse(c) in memos
             guard = None
             for s in loop.body:
                 if isinstance(s, ast.If) and any(isinstance(x, ast.Compare) and any(isinstance(o, ast.In) for o in x.ops)
-                                                 and "values" in unparse(x.comparators[0]) for x in ast.walk(s.test)) \
+                                                 and against_live_memo(x) for x in ast.walk(s.test)) \
                         and any(isinstance(b, ast.Continue) for b in s.body):
                     guard = s
                     break
                 if any(isinstance(x, (ast.Yield, ast.YieldFrom)) for x in ast.walk(s)):
                     break
                 if isinstance(s, ast.If) and any(isinstance(x, ast.Compare) and any(isinstance(o, ast.NotIn) for o in x.ops)
-                                                 and "values" in unparse(x.comparators[0]) for x in ast.walk(s.test)) \
+                                                 and against_live_memo(x) for x in ast.walk(s.test)) \
                         and any(isinstance(x, ast.Yield) for b in s.body for x in ast.walk(b)):
                     guard = s
                     break
